@@ -29,7 +29,7 @@ SPEC = dict(
                  "--ignore-vcs-tag is the documented opt-out: only 'tags do not influence the start' is asserted there",
                  "day-of-year 366 in a non-leap year is not generated (the statement does not say whether it matches)"],
     required=["fake_runs", "real_git_runs", "scope:default", "scope:global", "scope:branch", "ignore_runs",
-              "impossible_date_tags", "tie_cases", "uniqueness_checked", "no_matching_tag_cases", "cli_tag_scope_overrides"],
+              "impossible_date_tags", "tie_cases", "uniqueness_checked", "no_matching_tag_cases", "cli_tag_scope_overrides", "show_pep440_line_checked"],
     anchors=[("cli", "_parse_version_tags"), ("cli", "get_latest_vcs_version_tag"), ("cli", "_update_cfg_from_vcs"),
              ("vcs", "get_tags"), ("v2version", "is_valid")],
 )
@@ -171,6 +171,12 @@ def observe(ctx, case, d, env, p, ast, tdy, cur, tags_all, tags_merged, scope, c
         ctx.violation(cls_crash, f"show exits {res.exit_code}: {res.crash or res.errors()[-2:]}", case=case, observed=desc)
         return
     got = res.stdout_value("Current Version: ")
+    pep_line = res.stdout_value("PEP440         : ")
+    if got is not None and vkey(got) is not None:
+        ctx.count("show_pep440_line_checked")
+        if pep_line is None or vkey(pep_line) != vkey(got):
+            ctx.violation("other:show_pep440_line_differs_from_current_version", f"show reports Current Version {got!r} "
+                          f"but PEP440 {pep_line!r} (config {cur!r}, tags {tags_all})", case=case, observed=desc)
     if got not in acceptable:
         ctx.violation("other:wrong_start_version", f"show reports {got!r}; expected one of {sorted(acceptable)} ({why}); "
                       f"scope={scope} ignore={ignore} config={cur!r} tags={tags_all} merged={tags_merged}", case=case, observed=desc)
